@@ -208,6 +208,7 @@ type c07Committee struct {
 	E         []int // key indexes of eligible members (sorted by address)
 	discrM    []int // committee members (collapsed) that are not eligible
 	delegs    []int // delegators among the original members
+	notDrawn  []int // online members (after pool collapsing) that were not drawn into this committee
 }
 
 type c07Ctx struct {
@@ -260,6 +261,20 @@ func (c *c07Ctx) committee(step uint8) *c07Committee {
 		if id := c.set.by[a]; id != nil && id.deleg != nil {
 			cm.delegs = append(cm.delegs, id.k)
 		}
+	}
+	inComm := map[common.Address]bool{}
+	for _, a := range c07SetAddrs(sv.Validators) {
+		inComm[a] = true
+	}
+	var nd []common.Address
+	for a := range c.set.members() {
+		if ca := c.set.collapse(a); !inComm[ca] {
+			inComm[ca] = true
+			nd = append(nd, ca)
+		}
+	}
+	for _, a := range c07SortAddrs(nd) {
+		cm.notDrawn = append(cm.notDrawn, c07KeyOf[a])
 	}
 	cm.threshold = c07RefThreshold(c.cnt, final, c.env.p)
 	cm.sub = c07RefSubtrahend(cm.original, len(cm.eligible), c.env.p)
@@ -413,6 +428,14 @@ func (c *c07Ctx) good(cm *c07Committee, step uint8, n int) ([]c07Entry, []int, [
 	return es, used, rest
 }
 
+// outsider: somebody who is not a voter of this committee (online-but-not-drawn, offline, unknown key)
+func (c *c07Ctx) outsider(cm *c07Committee) int {
+	if len(cm.notDrawn) > 0 && c.rng.Bool() {
+		return cm.notDrawn[c.rng.Intn(len(cm.notDrawn))]
+	}
+	return c.outs[c.rng.Intn(len(c.outs))]
+}
+
 func (c *c07Ctx) forged(cm *c07Committee, step uint8, kHint int) c07Entry {
 	h := c.canon(step, c.blockA)
 	switch c.rng.Intn(6) {
@@ -549,9 +572,9 @@ func (c *c07Ctx) runCertClass(class string, step uint8) bool {
 			return false
 		}
 		es, _, _ = c.good(cm, step, c.rng.Range(req, len(cm.E)))
-		es = append(es, c.entry(c.outs[c.rng.Intn(len(c.outs))], canon, "outsider"))
+		es = append(es, c.entry(c.outsider(cm), canon, "outsider"))
 	case "outsider-pad":
-		es, ok = pad(func(used, rest []int, i int) c07Entry { return c.entry(c.outs[c.rng.Intn(len(c.outs))], canon, "outsider") })
+		es, ok = pad(func(used, rest []int, i int) c07Entry { return c.entry(c.outsider(cm), canon, "outsider") })
 	case "discr-pad":
 		if len(cm.discrM) == 0 {
 			return false
@@ -669,7 +692,7 @@ func (c *c07Ctx) runCertClass(class string, step uint8) bool {
 				h.off, h.upg = c.flags()
 				es = append(es, c.entry(anyKey(cm.E), h, "good"))
 			case 1:
-				es = append(es, c.entry(c.outs[c.rng.Intn(len(c.outs))], h, "outsider"))
+				es = append(es, c.entry(c.outsider(cm), h, "outsider"))
 			case 2:
 				es = append(es, c.entry(anyKey(cm.discrM), h, "discriminated-or-outsider"))
 			case 3:
@@ -1052,7 +1075,7 @@ func (c *c07Ctx) noise(cm *c07Committee, step uint8, rest []int, n int) ([][]byt
 			k := anyKey(cm.delegs)
 			out, what = append(out, c.voteBytes(k, h)), append(what, fmt.Sprintf("k%d:delegator-or-outsider", k))
 		case 2:
-			k := c.outs[c.rng.Intn(len(c.outs))]
+			k := c.outsider(cm)
 			out, what = append(out, c.voteBytes(k, h)), append(what, fmt.Sprintf("k%d:outsider", k))
 		case 3:
 			k := anyKey(restOrE)
@@ -1081,7 +1104,7 @@ func (c *c07Ctx) noise(cm *c07Committee, step uint8, rest []int, n int) ([][]byt
 				out, what = append(out, out[c.rng.Intn(len(out))]), append(what, "raw-duplicate")
 			}
 		case 8: // an outsider that is online but was not drawn / a vote for B by a non-member
-			k := c.outs[c.rng.Intn(len(c.outs))]
+			k := c.outsider(cm)
 			h.voted = c.blockB.Hash()
 			out, what = append(out, c.voteBytes(k, h)), append(what, fmt.Sprintf("k%d:outsider-votes-B", k))
 		}
@@ -1097,7 +1120,7 @@ func (c *c07Ctx) submitCV(pool *c07Pool, class string, step uint8) bool {
 	req := cm.required
 	canonA, canonB := c.canon(step, c.blockA), c.canon(step, c.blockB)
 	j := &c07CVJob{rep: c.rep, env: c.env, vc: c.vcs[c.rng.Intn(len(c.vcs))], prev: c.prev, blocks: []*types.Header{c.blockA, c.blockB}, h: c.h,
-		step: step, class: class, shape: c.shape, eligible: cm.eligible, required: req, timeout: 40 * time.Millisecond}
+		step: step, class: class, shape: c.shape, eligible: cm.eligible, required: req, timeout: 300 * time.Millisecond}
 	var what []string
 	voteFor := func(ks []int, h c07Hdr, tag string, dst *[][]byte) {
 		for _, k := range ks {
@@ -1431,6 +1454,9 @@ func c07RunCase(rep *verifutil.Report, envs []*c07Env, rng *verifutil.Rng, i int
 		}
 		if cm.required <= 0 {
 			rep.Count("committees_with_required_le_0", 1)
+			if len(cm.E) > 0 {
+				rep.Count("committees_with_required_le_0_despite_eligible_members", 1)
+			}
 		}
 		if len(cm.E) < cm.original {
 			rep.Count("committees_with_subtrahend_or_collapsing", 1)
@@ -1492,8 +1518,30 @@ func TestVerifC07Cert(t *testing.T) {
 	defer rep.Write()
 	envs := c07Setup(t)
 	pool := c07NewPool(32)
-	n := verifutil.Scale(1920, 19200) / verifutil.NShards()
+	n := verifutil.Scale(3200, 64000) / verifutil.NShards()
+	only := -1
+	if f := os.Getenv("VERIF_REPLAY"); f != "" { // ./check C07 <tier> --replay FILE: re-run exactly the recorded case
+		var r struct {
+			First struct {
+				Replay struct {
+					Case  int `json:"case"`
+					Shard int `json:"shard"`
+				} `json:"replay"`
+			} `json:"first"`
+		}
+		raw, err := os.ReadFile(f)
+		if err != nil || json.Unmarshal(raw, &r) != nil {
+			t.Fatalf("c07: cannot read replay file %s", f)
+		}
+		if r.First.Replay.Shard != verifutil.Shard() {
+			n = 0
+		}
+		only = r.First.Replay.Case
+	}
 	for i := 0; i < n; i++ {
+		if only >= 0 && i != only {
+			continue
+		}
 		rng := verifutil.Stream(7, uint64(i))
 		rep.Progress("case %d", i)
 		if p, stack := verifutil.Catch(func() { c07RunCase(rep, envs, rng, i, pool) }); p != nil {
